@@ -79,7 +79,7 @@ func fltOrStr(f float64) rv {
 	return flt(f)
 }
 
-var hostile = []string{"", "a", "k\"q", "new\nline", "tab\t", "\x00\x1f", "\xff\xfe", "é☺", `back\slash`, "a||b=c", "<&>"}
+var hostile = []string{"", "a", "k\"q", "new\nline", "tab\t", "\x00\x1f", "\xff\xfe", "é☺", `back\slash`, "a||b=c", "<&>", "a\ufffdb", "\u2028\U0001F600\x7f"}
 
 func fieldAlphabet() []fieldCase {
 	var out []fieldCase
